@@ -141,6 +141,8 @@ def run_symbolic(spec):
             if True:
                 if getattr(mod, sfn)(**sargs) is not True:
                     return dict(verdict='ERROR', message='self-test %s%r failed in worker' % (sfn, sargs))
+    if hasattr(mod, 'warmup'):
+        mod.warmup(dict(spec.get('fixed') or {}))       # untraced construction of parsers etc. this shard needs
     cond = make_wrapper(spec, fn)
     stats = collections.Counter()
     opts = AnalysisOptionSet(per_condition_timeout=float(spec['timeout']),
